@@ -37,6 +37,9 @@ func blkOp(ci int, d time.Duration) sim.Op { return sim.Op{K: "blk", C: ci, N: i
 func (p *Core) ensureProvable(c *sim.Chain, h int64) ([]sim.Op, int64) {
 	var ops []sim.Op
 	top := c.Height
+	if h < c.MinVersion {
+		h = c.MinVersion // the node only has state versions from its last genesis restart on
+	}
 	for top < h+1 {
 		ops = append(ops, blkOp(c.Idx, p.w.Dur()))
 		top++
@@ -247,7 +250,30 @@ func (p *Core) pickInflight() *PktState {
 func (p *Core) Gen(w *sim.World) []sim.Op {
 	o := p.Opt
 	for try := 0; try < 8; try++ {
-		switch w.Pick(o.WSend, o.WRelay, o.WBlock, o.WDup, o.WEarlyTmo, o.WClose, o.WMut, o.WRestart, o.WUpdate, o.WAsyncAck, 2+o.WSkew, o.WLocalVerify, o.WDelayProbe, o.WXfer, o.WDonate, o.WAttack, o.WRateAdm, o.WGrant, o.WReReg) {
+		switch w.Pick(o.WSend, o.WRelay, o.WBlock, o.WDup, o.WEarlyTmo, o.WClose, o.WMut, o.WRestart, o.WUpdate, o.WAsyncAck, 2+o.WSkew, o.WLocalVerify, o.WDelayProbe, o.WXfer, o.WDonate, o.WAttack, o.WRateAdm, o.WGrant, o.WReReg, o.WGenesis, o.WLostCommit) {
+		case 19:
+			ci := w.Intn(len(p.C))
+			if p.genesisRestarts < 2 {
+				p.genesisRestarts++
+				return []sim.Op{{K: "gexp", C: ci}}
+			}
+		case 20:
+			ci := w.Intn(len(p.C))
+			if len(p.C[ci].Mempool) == 0 {
+				// give the lost block something to do: defer the next relay into it
+				if ps := p.pickInflight(); ps != nil {
+					if ops := p.nextHonest(ps, false); ops != nil && ops[len(ops)-1].K != "wack" && ops[len(ops)-1].K != "closec" {
+						last := &ops[len(ops)-1]
+						last.X |= flagDefer
+						on := ps.Src.Idx
+						if last.K == "recv" {
+							on = ps.Dst.Idx
+						}
+						return append(ops, sim.Op{K: "lostc", C: on, N: int64(sim.DefaultBlockInterval)})
+					}
+				}
+			}
+			return []sim.Op{{K: "lostc", C: ci, N: int64(sim.DefaultBlockInterval)}}
 		case 18:
 			for i, r := range p.Routes {
 				if r.Kind == "v2" || r.Kind == "t2" {
